@@ -1,7 +1,7 @@
 (* Proof/TrajP.v — the assembled loop body (Model/Traj.step): what a pass does to the nuclear
    variables, and exact energy conservation across the hop part of the pass. *)
 From Coq Require Import Reals ZArith List Lra Lia Bool.
-From MV Require Import Ops RInst Vec Cplx Mat CRing MatP Poisson Hop Hopper Propagate Traj HopP PropagateP Rk4P Ehrenfest Cumulative Afssh AfsshP CollapseP.
+From MV Require Import Ops RInst Vec Cplx Mat CRing MatP Poisson Hop Hopper Propagate Traj HopP PropagateP Rk4P ReverseP Ehrenfest Cumulative Afssh AfsshP CollapseP.
 Import ListNotations.
 Open Scope R_scope.
 
@@ -314,4 +314,30 @@ Proof.
     assert (pact (ab s1) < n)%nat as Ha1.
     { rewrite (step_af_active _ _ _ _ _ _ _ _ _ _ _ _ _ _ _ _ _ _ Es). destruct att as [[t [|]]|]; [apply He; reflexivity | exact Ha | exact Ha]. }
     apply (IH s1 sf' evs' Er Hds Ha1 Hevs A B C0).
+Qed.
+
+(* ---- time reversal of a whole pass ---- *)
+(* a pass without hop attempt, then the pass of the time-reversed problem: momenta negated, density matrix conjugated, the two
+   electronics exchanged, and - as the eigen-decomposition of the reversed generator, which is the conjugate of the forward one
+   (C07_midpoint_generator_time_symmetric) - the pair (lam, conj C).  The second pass returns the reversed initial state exactly. *)
+Lemma step_reversible n m dt poisson zeta zeta' e0 e1 lam Cm (s s1 s2 : tstate (T:=R)) W hp W' hp' :
+  let f0 := nth (pact s) (eforce e0) [] in let f1 := nth (pact s) (eforce e1) [] in
+  length (px s) = length m -> length (pv s) = length m -> length f0 = length m -> length f1 = length m ->
+  Forall (fun mi => mi <> 0) m -> length lam = n -> unitary n (mget ROps Cm) ->
+  step ROps n m dt poisson zeta e0 e1 lam Cm s = (s1, W, hp, None) ->
+  step ROps n m dt poisson zeta' e1 e0 lam (mconj n Cm) (mkT (px s1) (map Ropp (pv s1)) (mconj n (prho s1)) (pact s1) (ptime s1)) = (s2, W', hp', None) ->
+  px s2 = px s /\ pv s2 = map Ropp (pv s) /\ pact s2 = pact s
+  /\ meq n (mget ROps (prho s2)) (fconj (mget ROps (prho s))).
+Proof.
+  intros f0 f1 Hx Hv H0 H1 Hm Hl HC Hf Hb.
+  destruct (step_nuclear n m dt poisson zeta e0 e1 lam Cm s s1 W hp None Hf) as (Ex & _ & Er & En).
+  destruct (En eq_refl) as [Ev Ea].
+  destruct (step_nuclear n m dt poisson zeta' e1 e0 lam (mconj n Cm) _ s2 W' hp' None Hb) as (Ex2 & _ & Er2 & En2).
+  destruct (En2 eq_refl) as [Ev2 Ea2]. cbn [px pv prho pact] in Ex2, Er2, Ev2, Ea2.
+  rewrite Ea in Ex2, Ev2, Ea2. fold f0 f1 in Ex, Ev. fold f0 f1 in Ex2, Ev2.
+  repeat split.
+  - rewrite Ex2, Ex, Ev. apply verlet_reverse_pos; assumption.
+  - rewrite Ev2, Ev. apply verlet_reverse_vel; assumption.
+  - exact Ea2.
+  - rewrite Er2, Er. apply exp_step_reverses; assumption.
 Qed.
